@@ -9,7 +9,7 @@ CHECK = {
              "handles kept alive, all-eager with varied forcing calls, shared node forced first / last / its parents "
              "forced as they are built, Boolean() vs operators vs compound assignment vs BatchBoolean, batches flat / "
              "nested left / nested right / chunked, transform chains step by step vs one composed matrix). rewrites: "
-             "case idx mod 8 selects the family: subtraction chains (a-b)-c.. vs a-(b+c..), nested vs flat "
+             "each block of 8 consecutive cases runs the 8 families once (rotated pseudo-randomly per block): subtraction chains (a-b)-c.. vs a-(b+c..), nested vs flat "
              "unions/intersections, bbox-disjoint operands (Compose path) incl. integer boxes whose bounding boxes "
              "touch exactly, empty operands in positive and negative positions, transform chains over a shared "
              "sub-expression, >1000 children in one BatchBoolean, a very deep compound-assignment chain with mixed "
@@ -24,9 +24,9 @@ CHECK = {
          "params": {"maxLeaves": {"quick": 10, "thorough": 24}, "extraHistories": {"quick": 1, "thorough": 3}},
          "case_timeout": 600},
         {"name": "rewrites", "variant": "asan", "harness": "c03_csg_laziness.cpp",
-         "cases": {"quick": 64, "thorough": 240},
+         "cases": {"quick": 64, "thorough": 200},
          "params": {"bigN": {"quick": 1001, "thorough": 1300}, "deepN": {"quick": 400, "thorough": 1000},
-                    "chainN": {"quick": 3000, "thorough": 10000}},
+                    "chainN": {"quick": 3000, "thorough": 6000}},
          "case_timeout": 900},
         # parallel library (real TBB, MANIFOLD_PAR=1): BatchBoolean's task_group path and the Par branch of Compose
         {"name": "dags-par", "variant": "tbb", "harness": "c03_csg_laziness.cpp", "tiers": ("thorough",),
@@ -35,7 +35,7 @@ CHECK = {
          "case_timeout": 600},
         {"name": "rewrites-par", "variant": "tbb", "harness": "c03_csg_laziness.cpp", "tiers": ("thorough",),
          "cases": {"quick": 0, "thorough": 80},
-         "params": {"bigN": 1300, "deepN": 1000, "chainN": 10000},
+         "params": {"bigN": 1300, "deepN": 1000, "chainN": 6000},
          "case_timeout": 900},
     ],
     "assumptions": [
